@@ -432,9 +432,14 @@ def _mod(a, b):
     if not term_is_num(b) or num_of(b) <= 0:
         raise SymLeak('% with non-constant or non-positive modulus')
     eng = engine()
+    key = ('mod', z3.simplify(a).sexpr() + '|' + b.sexpr())
+    hit = eng.summaries.get(key)
+    if hit is not None:
+        return SymFloat(hit[0])
     k = eng.fresh_int('modq')
     r = a - z3.ToReal(k) * b
     eng.add_axiom(z3.And(r >= 0, r < b))
+    eng.summaries[key] = (r, [])
     return SymFloat(r)
 
 
@@ -822,6 +827,14 @@ def to_fraction(t, memo=None) -> Tuple[z3.ArithRef, z3.ArithRef]:
         elif kind == z3.Z3_OP_UMINUS:
             n, d = ch[0]
             r = (-n, d)
+        elif kind == z3.Z3_OP_POWER and term_is_num(t.arg(1)) and num_of(t.arg(1)).denominator == 1 \
+                and abs(num_of(t.arg(1))) <= 8:
+            e = int(num_of(t.arg(1)))
+            n, d = to_fraction(t.arg(0), memo)
+            pn, pd = one, one
+            for _ in range(abs(e)):
+                pn, pd = pn * n, pd * d
+            r = (pn, pd) if e >= 0 else (pd, pn)
         else:
             r = (t, one)  # If-terms, ToReal, uninterpreted: atoms
     r = (z3.simplify(r[0]), z3.simplify(r[1]))
@@ -838,6 +851,8 @@ def has_symbolic_division(t, memo=None) -> bool:
     memo.add(k)
     if z3.is_app(t):
         if t.decl().kind() == z3.Z3_OP_DIV and not term_is_num(t.arg(1)):
+            return True
+        if t.decl().kind() == z3.Z3_OP_POWER and term_is_num(t.arg(1)) and num_of(t.arg(1)) < 0:
             return True
         return any(has_symbolic_division(c, memo) for c in t.children())
     return False
